@@ -19,6 +19,7 @@ import (
 	"encoding/json"
 	"flag"
 	"fmt"
+	"hash/fnv"
 	"io"
 	"math/rand"
 	"os"
@@ -69,6 +70,10 @@ const (
 var (
 	crdGK = schema.GroupKind{Group: "apiextensions.k8s.io", Kind: "CustomResourceDefinition"}
 	revGK = schema.GroupKind{Group: "pkg.crossplane.io", Kind: "ProviderRevision"}
+	// the package type of the current scenario (setFamily): Provider or Function - both may ship CRDs. Everything the
+	// establisher does must hold for each package type (added after the seeded change C16-m5 - the parent-package owner
+	// reference forgotten for Function packages - was missed by a driver that only installed Providers)
+	pkgKind = "Provider"
 )
 
 func crdName(alias string) string { return alias + "s." + crdGroup }
@@ -451,7 +456,7 @@ func (w *world) env(e replay.Entry) {
 			}
 		}
 		o := crd(e.O, "other")
-		o.OwnerReferences = []metav1.OwnerReference{{APIVersion: "pkg.crossplane.io/v1", Kind: "ProviderRevision", Name: "other-r1", UID: q, Controller: ptr.To(true), BlockOwnerDeletion: ptr.To(true)}}
+		o.OwnerReferences = []metav1.OwnerReference{{APIVersion: "pkg.crossplane.io/v1", Kind: revGK.Kind, Name: "other-r1", UID: q, Controller: ptr.To(true), BlockOwnerDeletion: ptr.To(true)}}
 		w.s.Put(o)
 		w.emit("env", map[string]any{"verb": e.K, "target": e.O, "abs": e.K + ":" + e.O})
 		return
@@ -486,7 +491,7 @@ func (w *world) grab(alias string) {
 		}
 	}
 	w.s.Mutate(crdKey(alias), func(u *unstructured.Unstructured) {
-		u.SetOwnerReferences(append(u.GetOwnerReferences(), metav1.OwnerReference{APIVersion: "pkg.crossplane.io/v1", Kind: "ProviderRevision",
+		u.SetOwnerReferences(append(u.GetOwnerReferences(), metav1.OwnerReference{APIVersion: "pkg.crossplane.io/v1", Kind: revGK.Kind,
 			Name: "other-r1", UID: q, Controller: ptr.To(true), BlockOwnerDeletion: ptr.To(true)}))
 	})
 }
@@ -506,9 +511,46 @@ func crd(alias, from string) *extv1.CustomResourceDefinition {
 	}
 }
 
+// setFamily chooses the package type by a hash of the scenario id.
+func setFamily(id string) {
+	h := fnv.New32a()
+	_, _ = h.Write([]byte(strings.SplitN(id, "/", 2)[0]))
+	pkgKind = "Provider"
+	if h.Sum32()%2 == 1 {
+		pkgKind = "Function"
+	}
+	revGK.Kind = pkgKind + "Revision"
+}
+
+// newPkg / newRev: empty objects of the scenario's package type.
+func newPkg() pkgv1.Package {
+	if pkgKind == "Function" {
+		return &pkgv1.Function{}
+	}
+	return &pkgv1.Provider{}
+}
+
+func newRev() pkgv1.PackageRevision {
+	if pkgKind == "Function" {
+		return &pkgv1.FunctionRevision{}
+	}
+	return &pkgv1.ProviderRevision{}
+}
+
+func linterFor() parser.Linter {
+	if pkgKind == "Function" {
+		return xpkg.NewFunctionLinter()
+	}
+	return xpkg.NewProviderLinter()
+}
+
 func packageStream(rev string, objs []string) string {
 	var b strings.Builder
-	b.WriteString("apiVersion: meta.pkg.crossplane.io/v1\nkind: Provider\nmetadata:\n  name: " + pkgName + "\nspec:\n  controller:\n    image: xpkg.example.org/org/pkg-controller:" + strings.ToLower(rev) + "\n")
+	if pkgKind == "Function" {
+		b.WriteString("apiVersion: meta.pkg.crossplane.io/v1\nkind: Function\nmetadata:\n  name: " + pkgName + "\nspec:\n  image: xpkg.example.org/org/pkg-function:" + strings.ToLower(rev) + "\n")
+	} else {
+		b.WriteString("apiVersion: meta.pkg.crossplane.io/v1\nkind: Provider\nmetadata:\n  name: " + pkgName + "\nspec:\n  controller:\n    image: xpkg.example.org/org/pkg-controller:" + strings.ToLower(rev) + "\n")
+	}
 	for _, a := range objs {
 		j, _ := json.Marshal(crd(a, rev))
 		b.WriteString("---\n")
@@ -529,6 +571,7 @@ func strs(v any) []string {
 }
 
 func newWorld(tw *trace.Writer, id string, init map[string]any, workers int) *world {
+	setFamily(id)
 	sch := theScheme
 	s := simapi.NewServer(sch)
 	c := simapi.NewClient(s, "revision")
@@ -557,12 +600,29 @@ func newWorld(tw *trace.Writer, id string, init map[string]any, workers int) *wo
 		w.rej[a] = true
 	}
 	// the package, its two revisions, a foreign package and its revision
-	p := s.Put(&pkgv1.Provider{ObjectMeta: metav1.ObjectMeta{Name: pkgName}, Spec: pkgv1.ProviderSpec{PackageSpec: pkgv1.PackageSpec{Package: "xpkg.example.org/org/pkg:v2"}}})
+	mkPkg := func(name, src string) *unstructured.Unstructured {
+		o := newPkg()
+		o.SetName(name)
+		o.SetSource(src)
+		return s.Put(o)
+	}
+	mkRev := func(name, pkg, src string, owner types.UID, st pkgv1.PackageRevisionDesiredState, n int64, fins []string) *unstructured.Unstructured {
+		o := newRev()
+		o.SetName(name)
+		o.SetLabels(map[string]string{pkgv1.LabelParentPackage: pkg})
+		o.SetFinalizers(fins)
+		o.SetOwnerReferences([]metav1.OwnerReference{{APIVersion: "pkg.crossplane.io/v1", Kind: pkgKind, Name: pkg, UID: owner, Controller: ptr.To(true), BlockOwnerDeletion: ptr.To(true)}})
+		o.SetDesiredState(st)
+		o.SetSource(src)
+		o.SetRevision(n)
+		o.SetIgnoreCrossplaneConstraints(ptr.To(true))
+		o.SetSkipDependencyResolution(ptr.To(true))
+		return s.Put(o)
+	}
+	p := mkPkg(pkgName, "xpkg.example.org/org/pkg:v2")
 	w.uidBy[p.GetUID()] = "P"
-	q := s.Put(&pkgv1.Provider{ObjectMeta: metav1.ObjectMeta{Name: "other"}, Spec: pkgv1.ProviderSpec{PackageSpec: pkgv1.PackageSpec{Package: "xpkg.example.org/org/other:v1"}}})
-	qr := s.Put(&pkgv1.ProviderRevision{ObjectMeta: metav1.ObjectMeta{Name: "other-r1", Labels: map[string]string{pkgv1.LabelParentPackage: "other"},
-		OwnerReferences: []metav1.OwnerReference{{APIVersion: "pkg.crossplane.io/v1", Kind: "Provider", Name: "other", UID: q.GetUID(), Controller: ptr.To(true)}}},
-		Spec: pkgv1.ProviderRevisionSpec{PackageRevisionSpec: pkgv1.PackageRevisionSpec{DesiredState: pkgv1.PackageRevisionActive, Package: "xpkg.example.org/org/other:v1", Revision: 1}}})
+	q := mkPkg("other", "xpkg.example.org/org/other:v1")
+	qr := mkRev("other-r1", "other", "xpkg.example.org/org/other:v1", q.GetUID(), pkgv1.PackageRevisionActive, 1, nil)
 	w.uidBy[qr.GetUID()] = "Q"
 	act := map[string]bool{"R1": init["act1"].(bool), "R2": init["act2"].(bool)}
 	revUID := map[string]types.UID{}
@@ -571,12 +631,7 @@ func newWorld(tw *trace.Writer, id string, init map[string]any, workers int) *wo
 		if act[r] {
 			st = pkgv1.PackageRevisionActive
 		}
-		pr := &pkgv1.ProviderRevision{ObjectMeta: metav1.ObjectMeta{Name: revName(r), Labels: map[string]string{pkgv1.LabelParentPackage: pkgName},
-			Finalizers:      []string{finalizer},
-			OwnerReferences: []metav1.OwnerReference{{APIVersion: "pkg.crossplane.io/v1", Kind: "Provider", Name: pkgName, UID: p.GetUID(), Controller: ptr.To(true), BlockOwnerDeletion: ptr.To(true)}}},
-			Spec: pkgv1.ProviderRevisionSpec{PackageRevisionSpec: pkgv1.PackageRevisionSpec{DesiredState: st, Package: "xpkg.example.org/org/pkg:" + strings.ToLower(r), Revision: int64(i + 1),
-				IgnoreCrossplaneConstraints: ptr.To(true), SkipDependencyResolution: ptr.To(true)}}}
-		u := s.Put(pr)
+		u := mkRev(revName(r), pkgName, "xpkg.example.org/org/pkg:"+strings.ToLower(r), p.GetUID(), st, int64(i+1), []string{finalizer})
 		revUID[r] = u.GetUID()
 		w.uidBy[u.GetUID()] = r
 		w.yaml[revName(r)] = packageStream(r, w.pkgs[r])
@@ -593,11 +648,11 @@ func newWorld(tw *trace.Writer, id string, init map[string]any, workers int) *wo
 		case "free":
 		case "R1":
 			o.OwnerReferences = []metav1.OwnerReference{
-				{APIVersion: "pkg.crossplane.io/v1", Kind: "ProviderRevision", Name: revName("R1"), UID: revUID["R1"], Controller: ptr.To(true), BlockOwnerDeletion: ptr.To(true)},
-				{APIVersion: "pkg.crossplane.io/v1", Kind: "Provider", Name: pkgName, UID: p.GetUID(), Controller: ptr.To(false), BlockOwnerDeletion: ptr.To(true)}}
+				{APIVersion: "pkg.crossplane.io/v1", Kind: revGK.Kind, Name: revName("R1"), UID: revUID["R1"], Controller: ptr.To(true), BlockOwnerDeletion: ptr.To(true)},
+				{APIVersion: "pkg.crossplane.io/v1", Kind: pkgKind, Name: pkgName, UID: p.GetUID(), Controller: ptr.To(false), BlockOwnerDeletion: ptr.To(true)}}
 		case "Q":
 			o.OwnerReferences = []metav1.OwnerReference{
-				{APIVersion: "pkg.crossplane.io/v1", Kind: "ProviderRevision", Name: "other-r1", UID: qr.GetUID(), Controller: ptr.To(true), BlockOwnerDeletion: ptr.To(true)}}
+				{APIVersion: "pkg.crossplane.io/v1", Kind: revGK.Kind, Name: "other-r1", UID: qr.GetUID(), Controller: ptr.To(true), BlockOwnerDeletion: ptr.To(true)}}
 		default:
 			panic("unknown pre-state " + st)
 		}
@@ -924,10 +979,10 @@ func (w *world) reconcile(rev string, al *replay.Aligner, sw *sweep) (calls int)
 		revision.WithCache(&fakeCache{w: w}),
 		revision.WithDependencyManager(nopDeps{}),
 		revision.WithEstablisher(&markEst{w: w, real: revision.NewAPIEstablisher(w.gc, namespace, w.workers)}),
-		revision.WithNewPackageRevisionFn(func() pkgv1.PackageRevision { return &pkgv1.ProviderRevision{} }),
+		revision.WithNewPackageRevisionFn(newRev),
 		revision.WithParser(parser.New(metaScheme, objScheme)),
 		revision.WithConfigStore(xpkg.NewImageConfigStore(w.gc, namespace)),
-		revision.WithLinter(xpkg.NewProviderLinter()),
+		revision.WithLinter(linterFor()),
 		revision.WithNamespace(namespace),
 	)
 	w.emit("start", nil)
